@@ -24,6 +24,19 @@ def fuzz(name, run, fuzztime, **kw):
 
 
 CHECKS = {
+    "C20": {
+        "quick": [
+            plain("regress", "^(TestRegressC20|TestC20RoundTrip)$"),
+            rapid("text", "^TestC20Text$", 40000, 2),
+            rapid("http", "^TestC20HTTP$", 15000, 2),
+        ],
+        "thorough": [
+            plain("regress", "^(TestRegressC20|TestC20RoundTrip)$"),
+            rapid("text", "^TestC20Text$", 600000, 8, timeout=3000),
+            rapid("http", "^TestC20HTTP$", 300000, 8, timeout=3000),
+            fuzz("fuzz", "^FuzzC20$", "120s"),
+        ],
+    },
     "C01": {
         "quick": [
             plain("regress", "^TestRegressC01"),
@@ -199,6 +212,7 @@ CHECKS = {
 LEVELS = {"C10": "fault_enumeration"}
 
 RULES = {
+    "C20": "cases = (a) level texts: the seven names and 'warning' in every letter-case mix, '', near misses (spaces, prefixes, Level(7)), non-ASCII look-alikes (U+0130, dotless i, full-width, zero-width), arbitrary strings and bytes, against targets holding any of the 256 values, through Level.UnmarshalText, Set/flag parsing, ParseLevel, ParseAtomicLevel, AtomicLevel.UnmarshalText, JSON and YAML documents; a sweep of all 256 values through String/CapitalString/MarshalText/JSON/YAML/flag round trips; (b) sequences of 1-8 HTTP requests (GET, PUT, POST, DELETE, HEAD, PATCH, lower-case, unknown methods; JSON/form/other/no content type; well-formed JSON, odd JSON, form body, query parameter, both, garbage, empty) against one AtomicLevel shared with a live derived logger. Oracle = ASCII-only reference parser; HTTP invariants plus accept/reject known by construction. Non-trivial = invalid or mixed-case text; HTTP: a rejected request between two accepted PUTs with different levels. Distinct = distinct text classes / sequence shapes.",
     "C18": "cases = a tree of handlers built by 0-6 random WithGroup (names incl. '' and duplicates) / WithAttrs derivations from random parents, then records (slog levels -8..12 incl. the gaps, hostile messages) with 0-3 attributes logged through every handler twice in drawn orders; attributes are trees of every slog Kind (string, int64, uint64, bool, duration, float64, time, Any of error/stringer/slice/map/nil/struct/bytes), named groups, inline groups, literally empty groups, empty attrs and LogValuers resolving to any of those; core threshold -1..3. Oracle = reference model of the slog.Handler contract (ordered tree), plus key-nesting differential against slog.NewJSONHandler when every attribute is solid; Enabled/handled iff the core enables the mapped level; level mapping swept over -200..200. Non-trivial = deferred group opening (WithGroup then WithAttrs starting with an empty attr), or an empty group/attr via WithAttrs or via a LogValuer. Distinct = distinct (derivation sequence shape, threshold, class flags).",
     "C15": "cases = generated call paths executed for real: a logger prepared by 0-6 Sugar/Desugar/With/WithLazy/Named/WithOptions steps, AddCallerSkip(k) with k in 0..4 below exactly k non-inlined wrapper frames, below a recursion of depth {0,1,10,50,63,64,65,200,1000}, through every front end (Logger level methods, Log, Check+Write, all 33 Sugar methods, NewStdLog/NewStdLogAt Print/Printf/Println/Output, RedirectStdLog+log.Print, globals L/S, slog.Logger methods over the zapslog handler), stack-trace enabler = arbitrary level subset or threshold; plus a deterministic sweep of every front end x skip 0..2 x depth {0,100}. Oracle = the site captured on the same source line with an independent runtime.Callers walk. Non-trivial = (a Sugar/Desugar conversion and skip >= 1) or (depth >= 64 with the stack enabled). Distinct = distinct (front end, skip, depth, conversions, stack on/off, conversion chain).",
     "C14": "cases = argument lists of length 0-9 mixing typed zap.Fields (from Spec trees), string keys (incl. empty, duplicate, 'error', 'ignored'), non-string keys (int, custom string type, slice, bool, float, struct, []byte, pointer), bare errors (plain, verbose, group, nil-pointer, panicking), nil and arbitrary values of every dynamic type zap.Any special-cases, in every order, through Debugw..Fatalw, Logw, With, WithLazy and With followed by a *w call, on enabled and fully disabled loggers; templates from a grammar of % verbs with 0-5 arguments through print-, printf-, println-style and Log/Logf/Logln at every level. Oracle = independent reference sweep from the With documentation (fields compared by key/type/recorded calls; every diagnostic must be matched by an Error-level entry identifying the item) and fmt.Sprint/Sprintf/Sprintln. Non-trivial = a Field or error before a pair (parity shift) or any invalid item; message job: formatting with arguments. Distinct = distinct (mode, level, argument kind sequence).",
@@ -226,6 +240,11 @@ ASSUMPTIONS = {
 TRUST = "Trusted base: Go toolchain/runtime, rapid's generators and shrinker, the reference model/oracle code in /verif/harness/props, and the standard-library packages used as reference implementations. Search-based: absence of a counterexample in the generated cases is not a proof."
 
 META = {
+    "C20": {
+        "technique": "property-based testing (rapid): reference level parser with ASCII-only folding across every parsing entry point, round-trip sweep of all 256 values; generated HTTP request sequences with invariants and by-construction expectations; coverage-guided fuzzing of (method, content type, body)",
+        "level_text": "Every parsing entry point must agree with a reference parser written from the documentation (valid text gives exactly that level; anything else is an error and leaves the target untouched); every valid level round-trips through all its text forms. For every generated request the handler must answer GET with 200 and the level in force, accept a PUT only by answering 200 with a valid level equal to the level now in force (and to the by-construction expectation for structurally built requests), and otherwise answer 4xx with a JSON error and leave the level unchanged; a live logger sharing the AtomicLevel must honour the level on its very next call. Exploration over unbounded texts and request histories.",
+        "level_note": TRUST + " net/http/httptest, encoding/json and yaml.v3 are trusted for building and decoding requests/documents.",
+    },
     "C18": {
         "technique": "model-based property testing (rapid): generated handler derivation trees and attribute trees vs a reference model of the slog.Handler contract; secondary differential against log/slog's JSONHandler",
         "level_text": "The decoded JSON line of every record must equal the ordered tree the contract prescribes: groups nest what follows, attrs keep order and typed value, group values nest, empty-key groups inline, empty attrs and attribute-less groups vanish (also via WithAttrs and LogValuers), a WithGroup without content is not emitted, WithGroup('') is a no-op, valuers are resolved; logging through siblings/children in any order never changes a handler's output; a record is handled iff the core enables the mapped level. Exploration over unbounded derivation/attribute trees.",
